@@ -256,9 +256,11 @@ m('C01', 'info dict: abs_error from error_at_cycle', SOLVER,
   "            'abs_error': var.l2,               # Absolute error.",
   "            'abs_error': var.error_at_cycle[-1],  # Absolute error.",
   'C01.R2')
-m('C01', 'krylov: atol large', SOLVER,
+# (since fix F30 success is certified by the recomputed residual: a large atol
+# only makes scipy stop early, which is then reported as NOT CONVERGED)
+n('C01', 'krylov: atol large (early stop is reported honestly)', SOLVER,
   "maxiter=var.ssl_maxit, atol=1e-30, M=M, callback=callback)",
-  "maxiter=var.ssl_maxit, atol=1e-3, M=M, callback=callback)", 'C01.R1')
+  "maxiter=var.ssl_maxit, atol=1e-3, M=M, callback=callback)")
 m('C01', '_terminate: STAGNATED arm without message', SOLVER,
   '        var.exit_message = "STAGNATED"\n', '        pass\n', 'C01.R6')
 m('C01', 'Field.field setter re-binds', FIELDS,
@@ -818,8 +820,9 @@ m('C19', '_get_points: relative receivers not resolved (defect F11)', MP,
 m('C17', 'misfit cached as DataArray and returned via .data (defect F12)', SIMS,
   "            self._misfit = float(misfit.data)\n\n        return self._misfit\n",
   "            self._misfit = misfit\n\n        return self._misfit.data\n", 'C17.K2.plain')
-m('C01', 'krylov: info == 0 taken for success also with maxit 0 (defect F13)', SOLVER,
-  "    elif i > 0 or var.ssl_maxit < 1:", "    elif i > 0:", 'C01.R1')
+m('C01', 'krylov: success on the SciPy return code alone (defects F13/F30)', SOLVER,
+  "    elif var.l2 < var.tol*var.l2_refe:\n        var.exit_message = \"CONVERGED\"\n    else:\n",
+  "    elif i == 0:\n        var.exit_message = \"CONVERGED\"\n    else:\n", 'C01.R1')
 m('C19', 'extract_1d: merge decided against a sentinel value (defect F14)', MODELS,
   "                diff[1:] += abs(np.diff(v))\n            diff[0] = 1.0  # The first layer is always kept.\n",
   "                diff += abs(np.diff(np.r_[-1, v]))\n", 'C19.L1.merge')
